@@ -26,7 +26,12 @@ func runBounds(c *Ctx, rule string, fns []*ssa.Function) int {
 	res := NewResolver(c.W)
 	// a caller outside the analysed set only has to prove what it passes (Result.Scan hands scan the position 0)
 	outside := map[*ssa.Function]*bprover{}
-	proverOf := func(f *ssa.Function) *bprover {
+	// a helper between two analysed functions that slices nothing itself (it only hands the position on:
+	// readOffset -> readWord) is not in the analysed set; what its own callers prove about its parameters is
+	// established for it too, to a fixed depth, so that what it passes on can be proven
+	var pre func(fn *ssa.Function, p *bprover, depth int)
+	var proverAt func(f *ssa.Function, depth int) *bprover
+	proverAt = func(f *ssa.Function, depth int) *bprover {
 		if p := provers[f]; p != nil {
 			return p
 		}
@@ -35,12 +40,16 @@ func runBounds(c *Ctx, rule string, fns []*ssa.Function) int {
 		}
 		if outside[f] == nil {
 			outside[f] = newBProver(c.W, f)
+			if depth < 2 && f.Object() != nil && !f.Object().Exported() {
+				pre(f, outside[f], depth+1)
+			}
 		}
 		return outside[f]
 	}
-	for round := 0; round < 2; round++ {
-		for _, fn := range fns {
-			p := provers[fn]
+	proverOf := func(f *ssa.Function) *bprover { return proverAt(f, 0) }
+	pre = func(fn *ssa.Function, p *bprover, depth int) {
+		proverOf := func(f *ssa.Function) *bprover { return proverAt(f, depth) }
+		{
 			for pi, par := range fn.Params {
 				if !isIntType(par.Type()) || isUnsigned(par.Type()) {
 					continue
@@ -113,6 +122,11 @@ func runBounds(c *Ctx, rule string, fns []*ssa.Function) int {
 					}
 				}
 			}
+		}
+	}
+	for round := 0; round < 2; round++ {
+		for _, fn := range fns {
+			pre(fn, provers[fn], 0)
 		}
 	}
 	// postconditions of helpers: for a helper H(…) (int, error) of the analysed
@@ -575,10 +589,64 @@ func propC17(c *Ctx) {
 			}
 		}
 	})
+	// classification by a helper of decode's own that is handed one byte of the token (hexNibble(b[i]) (uint64, bool)):
+	// the accepted set is read from the helper's range tests in the same way; which of its outcomes decode turns
+	// into an error and the digit value it hands back are then not decided by this rule (round 9, C17-R9E)
+	var viaHelper *ssa.Function
+	if len(ranges) == 0 {
+		for _, ci := range callsIn(dec) {
+			call, ok := ci.(*ssa.Call)
+			if !ok {
+				continue
+			}
+			h := staticCallee(call)
+			if h == nil || h.Blocks == nil || !isRepoFunc(h) || h == dec {
+				continue
+			}
+			for _, a := range call.Call.Args {
+				var base ssa.Value
+				switch y := stripNum(stripConv(a)).(type) {
+				case *ssa.Index:
+					base = y.X
+				case *ssa.Lookup:
+					base = y.X
+				}
+				if base != nil && stripConv(base) == ssa.Value(dec.Params[0]) {
+					viaHelper = h
+				}
+			}
+		}
+		if viaHelper != nil {
+			allInstrs(viaHelper, func(in ssa.Instruction) {
+				b, ok := in.(*ssa.BinOp)
+				if !ok {
+					return
+				}
+				k, okc := constInt(b.Y)
+				if !okc {
+					return
+				}
+				if b.Op == token.GEQ {
+					t, _ := boolEdges(b)
+					for _, e := range t {
+						los[e.To] = k
+					}
+				}
+				if b.Op == token.LEQ {
+					if lo, ok := los[b.Block()]; ok {
+						ranges = append(ranges, rng{lo, k})
+					}
+				}
+			})
+			if len(ranges) == 0 {
+				viaHelper = nil
+			}
+		}
+	}
 	// classification by a lookup table indexed with the byte (built at init): what the table
 	// holds is data, not code shape – the accepted set and the digit values are then not decided here
 	byTable := false
-	if len(ranges) == 0 {
+	if len(ranges) == 0 && viaHelper == nil {
 		dreg := NewRegion(dec) // the table may have a look-up method of its own (nibbles.value(b[i]))
 		dreg.AllInstrs(func(in ssa.Instruction) {
 			var base, idx ssa.Value
@@ -676,14 +744,14 @@ func propC17(c *Ctx) {
 			}
 		})
 	}
-	if byTable {
+	if byTable || viaHelper != nil {
 		hasErr := false
 		for _, r := range returnsOf(dec) {
 			if definitelyNonNilError(returnValues(r)[1], nil) {
 				hasErr = true
 			}
 		}
-		c.Check("R17.3", "decode/non-hex-is-error", dec.Pos(), hasErr, "table classification: an error return exists; which bytes take it is data (not decided)")
+		c.Check("R17.3", "decode/non-hex-is-error", dec.Pos(), hasErr, "classification by a table or a helper: an error return exists; which bytes take it is not decided")
 	} else {
 		c.Check("R17.3", "decode/non-hex-is-error", dec.Pos(), okErr, "a byte outside the three ranges returns a non-nil error and contributes no digit")
 	}
@@ -738,6 +806,10 @@ func propC17(c *Ctx) {
 						where = c.W.Pos(instrPos(terminator(pred)))
 					}
 				}
+			}
+			if viaHelper != nil && !good {
+				c.OK("R17.3", fmt.Sprintf("decode/digit-value#%d-in-0..15", nFold), or.Pos(), "the digit value is handed back by the classifying helper "+fnName(viaHelper)+": not decided by this rule")
+				return
 			}
 			if byTable && !good {
 				c.OK("R17.3", fmt.Sprintf("decode/digit-value#%d-in-0..15", nFold), or.Pos(), "the digit value comes from a lookup table: data, not decided by this rule")
